@@ -120,6 +120,26 @@ async fn own_hdrs_h(rq: RequestContext<()>) -> Result<dropshot::HttpResponseHead
     Ok(r)
 }
 
+/// A success value whose serialisation fails part-way with an error text that names internals.
+#[derive(Serialize, JsonSchema)]
+struct Unsendable {
+    head: String,
+    #[schemars(with = "String")]
+    bad: FailsToSerialise,
+}
+struct FailsToSerialise;
+impl Serialize for FailsToSerialise {
+    fn serialize<S: serde::Serializer>(&self, _s: S) -> Result<S::Ok, S::Error> {
+        Err(serde::ser::Error::custom(format!("{MARK} cannot serialise /var/db/secret-path")))
+    }
+}
+async fn unsendable_h(_rq: RequestContext<()>) -> Result<HttpResponseOk<Unsendable>, HttpError> {
+    Ok(HttpResponseOk(Unsendable { head: "partial".into(), bad: FailsToSerialise }))
+}
+async fn unsendable_custom_h(_rq: RequestContext<()>) -> Result<HttpResponseOk<Unsendable>, CustomErr> {
+    Ok(HttpResponseOk(Unsendable { head: "partial".into(), bad: FailsToSerialise }))
+}
+
 fn api() -> ApiDescription<()> {
     let mut api = ApiDescription::new();
     let ct = "application/json";
@@ -131,6 +151,8 @@ fn api() -> ApiDescription<()> {
     api.register(ApiEndpoint::new("ctyped".into(), custom_typed_h, http::Method::GET, ct, "/ctyped/{n}", v())).unwrap();
     api.register(ApiEndpoint::new("query".into(), query_h, http::Method::GET, ct, "/q", v())).unwrap();
     api.register(ApiEndpoint::new("body".into(), body_h, http::Method::PUT, ct, "/body", v())).unwrap();
+    api.register(ApiEndpoint::new("unsendable".into(), unsendable_h, http::Method::GET, ct, "/unsendable", v())).unwrap();
+    api.register(ApiEndpoint::new("unsendable_custom".into(), unsendable_custom_h, http::Method::GET, ct, "/unsendable_custom", v())).unwrap();
     api.register(ApiEndpoint::new("own_raw".into(), own_raw_h, http::Method::GET, ct, "/own_raw", v())).unwrap();
     api.register(ApiEndpoint::new("own_hdrs".into(), own_hdrs_h, http::Method::GET, ct, "/own_hdrs", v())).unwrap();
     api
@@ -176,6 +198,9 @@ fn cases(i: u64) -> Vec<Case> {
         Case { name: "body_wrong_content_type", req: request("PUT", "/body", &format!("content-type: text/plain\r\n{client_rid}"), b"{\"a\":1}"), status: 400, framework_body: true, handler_id: HandlerId::None },
         Case { name: "handler_sets_own_request_id_on_raw_response", req: g("/own_raw"), status: 200, framework_body: false, handler_id: HandlerId::Field("handler_request_id") },
         Case { name: "handler_sets_own_request_id_via_headers_mut", req: g("/own_hdrs"), status: 200, framework_body: false, handler_id: HandlerId::Field("handler_request_id") },
+        // a response that cannot be serialised is the server's failure (500), and the serialiser's error text stays internal
+        Case { name: "response_cannot_be_serialised", req: g("/unsendable"), status: 500, framework_body: true, handler_id: HandlerId::None },
+        Case { name: "response_cannot_be_serialised_custom_error_type", req: g("/unsendable_custom"), status: 500, framework_body: false, handler_id: HandlerId::None },
         Case { name: "not_found", req: g("/nope"), status: 404, framework_body: true, handler_id: HandlerId::None },
         Case { name: "method_not_allowed", req: request("POST", "/ok", client_rid, b""), status: 405, framework_body: true, handler_id: HandlerId::None },
         Case { name: "bad_path", req: g("/typed/%ff"), status: 400, framework_body: true, handler_id: HandlerId::None },
@@ -258,7 +283,7 @@ pub fn run(ctx: &Ctx, samples: &Samples) -> Value {
     let vsrv = LiveServer::start(api(), (), ServerOpts { version_policy: Some(versioned("2.0.0")), ..Default::default() }).unwrap_or_else(|e| machinery_failure(&e));
     let sh = Shared { ids: Mutex::new(HashSet::new()), requests: AtomicU64::new(0), kinds: Mutex::new(Default::default()) };
     let nconn = 8usize;
-    let per_case_rounds = total / (nconn as u64 * 18);
+    let per_case_rounds = total / (nconn as u64 * 20);
     par_for(nconn, nconn, 0, |t| {
         let mut ka = KeepAlive::new(srv.addr);
         let mut kv = KeepAlive::new(vsrv.addr);
@@ -285,7 +310,7 @@ pub fn run(ctx: &Ctx, samples: &Samples) -> Value {
     let n = sh.requests.load(Ordering::Relaxed);
     let ids = sh.ids.lock().unwrap().len() as u64;
     json!({"requests": n, "http2_requests_multiplexed": h2_requests, "distinct_request_ids": ids, "connections": nconn, "per_kind": *sh.kinds.lock().unwrap(),
-           "script": "18 response kinds cycled over 8 keep-alive connections and two servers (unversioned, header-versioned); status codes 400..=599 cycled; client-supplied x-request-id headers (absent / repeated value / all-zero uuid / two lines) cycled"})
+           "script": "20 response kinds cycled over 8 keep-alive connections and two servers (unversioned, header-versioned); status codes 400..=599 cycled; client-supplied x-request-id headers (absent / repeated value / all-zero uuid / two lines) cycled"})
 }
 
 /// The same contract over HTTP/2: many requests multiplexed as concurrent streams of one connection.
